@@ -32,8 +32,15 @@ class _Raw(io.RawIOBase):
     def readable(self):
         return True
 
+    def close(self):
+        if not self.closed:
+            super().close()
+            self.s._file_closed()
+
     def readinto(self, b):
         s = self.s
+        if self.closed:
+            raise ValueError("I/O operation on closed file")
         if not s.rx:
             if s.closed:
                 raise OSError(9, "Bad file descriptor")
@@ -61,7 +68,8 @@ class MemSock:
         self.sends = 0
         self.rx = b""            # delivered by peer, not yet read by client
         self.delivered = 0
-        self.closed = False
+        self.closed = False      # the descriptor is really gone (socket closed AND every makefile() object closed)
+        self.user_closed = False  # close() was called on the socket object
         self.eof_seen = False
         self.timeouts = []       # settimeout log
         self.events = []         # ("send", n) / ("settimeout", t) in order
@@ -80,7 +88,7 @@ class MemSock:
         pass
 
     def sendall(self, data):
-        if self.closed:
+        if self.closed or self.user_closed:
             raise OSError(9, "Bad file descriptor")
         data = bytes(data)
         self.sends += 1
@@ -96,7 +104,19 @@ class MemSock:
         self.refs += 1
         return io.BufferedReader(_Raw(self), 8192)
 
+    # socket.socket semantics: close() only releases the descriptor once every file object obtained from
+    # makefile() has been closed too (socket._io_refs) — a response that is still being read keeps it alive.
     def close(self):
+        self.user_closed = True
+        if self.refs <= 0:
+            self._real_close()
+
+    def _file_closed(self):
+        self.refs -= 1
+        if self.user_closed and self.refs <= 0:
+            self._real_close()
+
+    def _real_close(self):
         if not self.closed:
             self.closed = True
             self.net.open_now -= 1
@@ -108,7 +128,7 @@ class MemSock:
         return -1
 
     def readable(self):
-        if self.closed:
+        if self.closed or self.user_closed:
             return True
         return bool(self.rx) or self.net.handler.readable(self)
 
